@@ -363,6 +363,23 @@ impl<const N: usize, const T: usize> StaticLut<N, T> {
     }
 }
 
+#[cfg(feature = "verif-hooks")]
+impl<const N: usize, const T: usize> StaticLut<N, T> {
+    /// Verification hook: apply one successor step of the `all_functions` iterator to
+    /// this table; returns false when the table wrapped around to zero
+    pub fn verif_successor(&mut self) -> bool {
+        next_inplace(N, self.table.as_mut())
+    }
+
+    /// Verification hook: the `all_functions` iterator, started at an arbitrary table
+    pub fn verif_all_functions_from(start: &Self) -> StaticLutIterator<N, T> {
+        StaticLutIterator {
+            lut: *start,
+            ok: true,
+        }
+    }
+}
+
 #[doc(hidden)]
 pub struct StaticLutIterator<const N: usize, const T: usize> {
     lut: StaticLut<N, T>,
